@@ -23,7 +23,7 @@ package s3mem
 //@ pred objInv(o, n) = allocated(o) && o.name == n && allocated(o.data) && o.data.name == n &&
 //@     imp(o.versions != nil, allocated(o.versions) && allif(k, imp(sl_has(o.versions)[k], typeis(k, gofakes3.VersionID) &&
 //@         typeis(sl_val(o.versions)[k], *bucketData) && allocated(dyn(sl_val(o.versions)[k], *bucketData)) &&
-//@         dyn(sl_val(o.versions)[k], *bucketData).versionID == dyn(k, gofakes3.VersionID))))
+//@         dyn(sl_val(o.versions)[k], *bucketData).versionID == dyn(k, gofakes3.VersionID) && dyn(sl_val(o.versions)[k], *bucketData).name == n)))
 // Ownership: an object's version list is its own — it is not the bucket's index
 // and not the version list of another object (lists are created by put and never shared).
 //@ pred bucketInvA(b) = b != nil && allocated(b.objects) &&
@@ -86,8 +86,11 @@ package s3mem
 //@ func (*bucket).put
 //@ props C05 C02 C10 C09
 //@ let O = objAt(b, name)
-//@ requires          inv:    bucketInv(b) && idsIssued(b)
-//@ requires          item:   item != nil && item.name == name
+//@ option guard-triggers
+//@ requires          invA:   bucketInvA(b)
+//@ requires          invB:   bucketInvB(b)
+//@ requires          ids:    idsIssued(b)
+//@ requires          item:   item != nil && item.name == name && allocated(item)
 //@ requires          newitem: allif(k, imp(sl_has(b.objects)[k], dyn(sl_val(b.objects)[k], *bucketObject).data != item &&
 //@                             imp(dyn(sl_val(b.objects)[k], *bucketObject).versions != nil,
 //@                               allif(j, imp(sl_has(dyn(sl_val(b.objects)[k], *bucketObject).versions)[j],
@@ -102,12 +105,14 @@ package s3mem
 //@ ensures [C05]     history: imp(old(hasObj(b, name)) && b.versioning != gofakes3.VersioningNone,
 //@                             O.versions != nil && sl_has(O.versions)[vkey(old(O.data.versionID))])
 //@ ensures [C02,C10] others: allstr(n, imp(n != name, hasObj(b, n) == old(hasObj(b, n)) && objAt(b, n) == old(objAt(b, n))))
+//@ ensures [C10]     lists:  allref(x, *skiplist.SkipList, imp(x != b.objects && x != O.versions, sl_has(x) == old(sl_has(x)) && sl_val(x) == old(sl_val(x)) &&
+//@                             sl_len(x) == old(sl_len(x)) && sl_key(x) == old(sl_key(x))))
+//@ ensures [C10]     objs:   allref(o, *bucketObject, imp(o != O, o.name == old(o.name) && o.data == old(o.data) && o.versions == old(o.versions)))
+//@ ensures [C10]     datas:  allref(d, *bucketData, imp(d != item, d.versionID == old(d.versionID)))
 //@ ensures           invA:   bucketInvA(b)
 //@ ensures           invB:   bucketInvB(b)
 //@ ensures           ids:    idsIssued(b)
 //@ modifies sl_has, sl_val, sl_len, sl_key, issued, item.versionID, fieldof(bucketObject, name), fieldof(bucketObject, data), fieldof(bucketObject, versions), fieldof(Backend, versionScratch)
-//@ unproved post:inv*@ret* preservation of the bucket representation invariant by put is stated but not discharged (nested quantifiers over the index and the version lists time out on all solvers); callers assume it
-//@ unproved post:ids@ret* same as above for the issued-id bookkeeping
 
 //@ func (*bucket).rm
 //@ props C05 C02 C10 C09
@@ -126,6 +131,9 @@ package s3mem
 //@ ensures [C02]     gone:   imp(old(hasObj(b, name)) && b.versioning == gofakes3.VersioningNone && old(O.versions) == nil, !hasObj(b, name))
 //@ ensures [C09,C05] nonil:  imp(hasObj(b, name), O.data != nil)
 //@ ensures [C02,C10] others: allstr(n, imp(n != name, hasObj(b, n) == old(hasObj(b, n)) && objAt(b, n) == old(objAt(b, n))))
+//@ ensures           invA:   bucketInvA(b)
+//@ ensures           invB:   bucketInvB(b)
+//@ ensures           ids:    idsIssued(b)
 //@ ensures           noerr:  rerr == nil
 //@ modifies sl_has, sl_val, sl_len, sl_key, issued, it_list, it_idx, fieldof(bucketObject, name), fieldof(bucketObject, data), fieldof(bucketObject, versions), fieldof(bucketData, versionID), fieldof(bucketData, name), fieldof(bucketData, deleteMarker), fieldof(bucketData, lastModified), fieldof(bucketData, body), fieldof(bucketData, hash), fieldof(bucketData, etag), fieldof(bucketData, metadata), fieldof(Backend, versionScratch)
 
@@ -151,6 +159,9 @@ package s3mem
 //@                               sl_has(O.versions)[k] == old(sl_has(O.versions))[k] && sl_val(O.versions)[k] == old(sl_val(O.versions))[k])))
 //@ ensures [C05,C09] nonil:  imp(hasObj(b, name), O.data != nil)
 //@ ensures [C10]     others: allstr(n, imp(n != name, hasObj(b, n) == old(hasObj(b, n)) && objAt(b, n) == old(objAt(b, n))))
+//@ ensures           invA:   bucketInvA(b)
+//@ ensures           invB:   bucketInvB(b)
+//@ ensures           ids:    idsIssued(b)
 //@ ensures           noerr:  rerr == nil
 //@ modifies sl_has, sl_val, sl_len, sl_key, issued, it_list, it_idx, fieldof(bucketObject, name), fieldof(bucketObject, data), fieldof(bucketObject, versions), fieldof(bucketData, versionID), fieldof(bucketData, name), fieldof(bucketData, deleteMarker), fieldof(bucketData, lastModified), fieldof(bucketData, body), fieldof(bucketData, hash), fieldof(bucketData, etag), fieldof(bucketData, metadata), fieldof(Backend, versionScratch)
 
@@ -281,6 +292,7 @@ package s3mem
 //@ ensures [C05]     vid:    imp(err == nil, result.VersionID == ite(B.versioning == gofakes3.VersioningEnabled, objAt(B, objectName).data.versionID, ""))
 //@ ensures [C02,C10] others: imp(err == nil, allstr(n, imp(n != objectName, hasObj(B, n) == old(hasObj(B, n)) && objAt(B, n) == old(objAt(B, n)))))
 //@ ensures [C10]     buckets: allstr(n, has(db.buckets, n) == old(has(db.buckets, n)) && db.buckets[n] == old(db.buckets[n]))
+//@ ensures [C02,C05] binv:   imp(old(hasBucket(db, bucketName)), bucketInv(B) && idsIssued(B))
 //@ ensures           lock:   db.lock == 0
 
 //@ func (*Backend).DeleteObject
@@ -294,6 +306,7 @@ package s3mem
 //@ ensures [C05]     marker: imp(old(hasBucket(db, bucketName)) && old(hasObj(B, objectName)) && B.versioning == gofakes3.VersioningEnabled,
 //@                             hasObj(B, objectName) && objAt(B, objectName).data.deleteMarker && result.IsDeleteMarker)
 //@ ensures [C02,C10] others: imp(old(hasBucket(db, bucketName)), allstr(n, imp(n != objectName, hasObj(B, n) == old(hasObj(B, n)) && objAt(B, n) == old(objAt(B, n)))))
+//@ ensures [C02,C05] binv:   imp(old(hasBucket(db, bucketName)), bucketInv(B) && idsIssued(B))
 //@ ensures           lock:   db.lock == 0
 
 //@ func (*Backend).DeleteObjectVersion
@@ -301,6 +314,7 @@ package s3mem
 //@ requires          inv:    dbInv(db) && db.lock == 0
 //@ ensures [C05]     nobucket: imp(!old(hasBucket(db, bucketName)), errcode(rerr) == gofakes3.ErrNoSuchBucket && unchanged())
 //@ ensures [C05]     ok:     imp(old(hasBucket(db, bucketName)), rerr == nil)
+//@ ensures [C05]     binv:   imp(old(hasBucket(db, bucketName)), bucketInv(bkt(db, bucketName)) && idsIssued(bkt(db, bucketName)))
 //@ ensures           lock:   db.lock == 0
 
 //@ func (*Backend).VersioningConfiguration
@@ -498,7 +512,7 @@ package s3mem
 //@ loop 1 exithint   xasc:   ascC(response)
 //@ loop 1 exithint   xbel:   belowC(response, storedBucket.objects, it_idx(iter.inner) + 1)
 //@ uses xsC: inv.objs inv.shape inv.after inv.count inv.soundC -hints hint.pos hint.cur hint.grow
-//@ uses xsP: inv.objs inv.shape inv.after inv.count inv.pset inv.soundP -hints hint.pos hint.cur hint.keepP
+//@ uses xsP: inv.shape inv.after inv.soundP -hints hint.pos hint.cur hint.keepP
 //@ uses xasc: inv.objs inv.shape inv.after inv.count inv.below inv.asc -hints hint.pos hint.cur hint.grow hint.prev
 //@ uses xbel: inv.objs inv.shape inv.after inv.count inv.below -hints hint.pos hint.cur hint.grow hint.prev
 //@ uses all: inv.shape inv.compl -hints hint.done hint.pos
@@ -507,7 +521,7 @@ package s3mem
 //@ uses done: inv.shape -hints hint.keepC hint.keepQ hint.curP hint.curC hint.pos
 //@ uses soundC: inv.objs inv.shape inv.after inv.count -hints hint.pos hint.cur hint.grow hint.xsC
 //@ uses grow: inv.shape inv.soundC -hints hint.pos hint.cur
-//@ uses soundP: inv.objs inv.shape inv.after inv.count inv.pset -hints hint.pos hint.cur hint.keepP hint.xsP
+//@ uses soundP: inv.shape inv.after -hints hint.pos hint.cur hint.keepP hint.xsP
 //@ uses compl: inv.shape -hints hint.done hint.pos
 //@ uses curP: inv.objs inv.shape inv.after inv.pset inv.last -hints hint.pos hint.cur hint.keepP
 //@ uses curC: inv.objs inv.shape inv.after -hints hint.pos hint.cur hint.grow
